@@ -224,7 +224,13 @@ func cmdRun(args []string) {
 				tot.Outcomes[k] += v
 			}
 			for k, v := range s.Extra {
-				extra[k] += v
+				if strings.HasPrefix(k, "max_") || strings.HasPrefix(k, "pump_") {
+					if v > extra[k] {
+						extra[k] = v
+					}
+				} else {
+					extra[k] += v
+				}
 			}
 			if len(s.Samples) > 0 && len(samples) < 40 {
 				samples = append(samples, map[string]any{"job": jobs[i].Name, "histories": s.Samples})
